@@ -89,4 +89,10 @@ SPECS = {
                       '`git reset --hard` makes index and work tree equal the tree of the commit HEAD resolves to (git contract)'],
         assumptions=['non-bare repository whose HEAD was attached to an existing branch', 'ref renaming does not merge two exported names'],
     ),
+    'C11': dict(
+        fncorr=[], runners=['stream', 'e2e_dryrun'], stream_modes=['corr'],
+        trusted_base=['the extractor (harness/src/extract.rs, syn) and the hand-audited effect classification of git subcommands in Frrs/Pipeline.lean',
+                      'the stream model has no dry-run input; it is compared with the real tool run in dry-run mode (stream-level correspondence) and the real run is compared with the dry run end to end'],
+        assumptions=['writes under .git/filter-repo/ are allowed'],
+    ),
 }
